@@ -291,6 +291,32 @@ func (x *executor) applyContract(m *machine, fr *frame, in ssa.Instruction, res 
 			vars[n+"0"] = args[i]
 		}
 	}
+	// a parameter of the callee that was renamed since its contract was written: the contract's name is an alias of
+	// the parameter its `local name type#k` anchor points to
+	if calleeFn := x.prog.funcs[key]; calleeFn != nil && fc.localAnchors != nil {
+		locals := namedLocals(calleeFn)
+		declared := map[string]bool{}
+		for _, a := range locals {
+			declared[a.Comment] = true
+		}
+		for oldName, an := range fc.localAnchors {
+			if _, have := vars[oldName]; have || declared[oldName] {
+				continue
+			}
+			k := 0
+			for _, a := range locals {
+				if localTypeString(a) == an.typ {
+					k++
+					if k == an.ord {
+						if v, ok := vars[a.Comment]; ok {
+							vars[oldName] = v
+							vars[oldName+"0"] = v
+						}
+					}
+				}
+			}
+		}
+	}
 	calleePkg := x.pkgForKey(key)
 	ev := &evaluator{x: x, st: st, old: nil, vars: vars, pkg: calleePkg, where: fc.file}
 	cname := x.instrName(fr, in, "call-pre")
